@@ -21,6 +21,8 @@ import inspect
 import sys
 import threading
 
+from .core import frame_depth
+
 
 class Deadlock(Exception):
     "Raised by the simulator when a loop has pending work but nothing can ever run."
@@ -192,7 +194,7 @@ class SimThreadPool:
             go.acquire()
             normal = sys.getrecursionlimit()
             if extra:
-                sys.setrecursionlimit(len(inspect.stack(0)) + extra)
+                sys.setrecursionlimit(frame_depth(sys._getframe()) + extra)
             try:
                 f._r = fn(*a, **k)
             except BaseException as e:  # delivered to the caller by result()
